@@ -86,6 +86,8 @@ type App struct {
 	// PolicyLate: the policy is assigned to the app after all declarations instead of right after cli.App(): commands
 	// declared before keep what they copied at declaration time (the default, ExitOnError)
 	PolicyLate bool
+	// DefaultPolicy: the application's ErrorHandling is not assigned at all (the documented default is ExitOnError)
+	DefaultPolicy bool
 	// SparseSetBy: one declaration in three is made without a SetByUser variable (listed in Obs.NoSetBy)
 	SparseSetBy bool
 	// CustomInt: integer-typed options and arguments are declared as user-defined value types (VarOpt / VarArg) whose
@@ -255,6 +257,18 @@ type CustomInts struct{ CustomInt }
 
 func (v *CustomInts) Clear() { v.V = nil }
 
+// aliasList writes the names of a command the way programs do: separated by one blank, by several, by a tab, with
+// blanks around the list (names are "space separated": any run of white space separates)
+func aliasList(k *Cmd) string {
+	switch k.ID % 4 {
+	case 1:
+		return " " + strings.Join(k.Aliases, "  ") + " "
+	case 2:
+		return strings.Join(k.Aliases, "\t")
+	}
+	return strings.Join(k.Aliases, " ")
+}
+
 // SharedExit is what the shared exit stub raises
 type SharedExit struct{ Code int }
 
@@ -306,7 +320,7 @@ type recs struct {
 // unless the app is Shared) and returns it together with the recorders
 func buildApp(a *App, o *Obs, setEnv *[]string) (*cli.Cli, map[int]*recs, func(c *cli.Cmd, t *Cmd)) {
 	app := cli.App(a.Root.Aliases[0], "desc")
-	if !a.PolicyLate {
+	if !a.PolicyLate && !a.DefaultPolicy {
 		app.ErrorHandling = a.Policy
 	}
 	declVersion := func() {
@@ -508,7 +522,10 @@ func buildApp(a *App, o *Obs, setEnv *[]string) (*cli.Cli, map[int]*recs, func(c
 					rs.ba[ad] = func() []string { return append([]string{}, *p...) }
 					continue
 				}
-				rc := &Rec{}
+				rc := &Rec{FlagLike: ad.FlagLike}
+				if ad.Default != "" {
+					rc.Vals = []string{ad.Default} // what the library captures as the declared default
+				}
 				rs.a[ad] = rc
 				c.Var(cli.VarArg{Name: ad.Name, Value: rc, SetByUser: sbArg, EnvVar: aenv, HideValue: ad.Hide})
 			}
@@ -540,10 +557,10 @@ func buildApp(a *App, o *Obs, setEnv *[]string) (*cli.Cli, map[int]*recs, func(c
 				k.After.Kind == BehAbsent && k.Action.Kind != BehAbsent && k.Policy == nil && k.LongDesc == "" && !k.Hidden {
 				// a bare leaf: declared through the ActionCommand helper
 				all[k.ID] = &recs{o: map[*OptDecl]*Rec{}, a: map[*ArgDecl]*Rec{}, sbo: map[*OptDecl]*bool{}, sba: map[*ArgDecl]*bool{}, bo: map[*OptDecl]func() []string{}, ba: map[*ArgDecl]func() []string{}}
-				c.Command(strings.Join(k.Aliases, " "), "d", cli.ActionCommand(mkHook(k, "ACT", k.Action, true)))
+				c.Command(aliasList(k), "d", cli.ActionCommand(mkHook(k, "ACT", k.Action, true)))
 				continue
 			}
-			c.Command(strings.Join(k.Aliases, " "), "d", func(sc *cli.Cmd) {
+			c.Command(aliasList(k), "d", func(sc *cli.Cmd) {
 				if !a.Builtin {
 					if o.InitSeen == nil {
 						o.InitSeen = map[int]map[int]Binding{}
@@ -880,7 +897,7 @@ type Built struct {
 func (b *Built) AddKid(k *Cmd) {
 	k.Parent = b.a.Root
 	b.a.Root.Kids = append(b.a.Root.Kids, k)
-	b.app.Command(strings.Join(k.Aliases, " "), "d", func(sc *cli.Cmd) { b.build(sc, k) })
+	b.app.Command(aliasList(k), "d", func(sc *cli.Cmd) { b.build(sc, k) })
 }
 
 // Build declares the application now; Run runs it later. Used to interleave the construction and the execution of
